@@ -42,6 +42,9 @@ def wrap(body, alt):
         Unless(N('nope'), body),
         Let([('y', N('f2')), ('z', C('f3'))], body),
         With(N('fo'), [V('a')] + body),
+        # with ... only: the body is rendered on a namespace of its own; what it pushes and pops there is not the caller's
+        # business, but the caller's namespace must be exactly as before when the block is left, whichever way
+        With(N('fo'), [V('a')] + body, only=True),
         In(N('fl'), [V('x')] + body, alt),
         In(N('fm'), body + [V('x')], mapping=True),
         # None handed to a tag that pushes a mapping: the frame is pushed (and popped) like any other
@@ -104,7 +107,7 @@ def cases_for(tier, rng):
         for p in variants:
             K = min(count_inv(p), 14)
             pairs = 1 if (has_handler and (tier == 'thorough' or i % 9 == 0)) else 0
-            cases.append(dict(prog=p, src=sources(cm={'d': plain('cm-d')}, kw=dict(NS)),
+            cases.append(dict(prog=p, src=sources(cm={'d': plain('cm-d')}, kw=dict(NS)), no_evs='"only": true' in json.dumps(p),
                               K=K if not pairs else min(K, 8),
                               fk=['ValueError', 'KeyError', 'dtreturn'] if not pairs else ['ValueError', 'dtreturn'],
                               pairs=pairs, svn=svn_table()))
@@ -118,7 +121,7 @@ def main(tier):
         PID, tier, cases, ['evs', 'depth', 'level', 'result'], batch=400, extra_stage=c08_tree.stages,
         assumptions=['faults are raised by namespace callables at their k-th invocation (ValueError, KeyError, '
                      'DTReturn); dtml-tree (all modes, nested, faults in branches / id / url / body) is validated against the projection spec ObsStack',
-                     'with ... only is not used here (its namespace is a fresh TemplateDict)'],
+                     'inside with ... only the pushes and pops happen on a namespace of its own and are not compared; final depth, level, result and the probes after the block are'],
         rule='block programs (every block kind around every leaf, every block kind nested in every block kind, '
              'random depth 3 in the thorough tier) x fault plans chosen by TLC: none, one fault at every '
              'invocation ordinal k x {ValueError, KeyError, dtml-return}, pairs for programs with handlers')
